@@ -32,6 +32,8 @@ static uint64_t sm_state;
 static uint64_t sm(void) { uint64_t z = (sm_state += 0x9E3779B97F4A7C15ull); z = (z ^ (z >> 30)) * 0xBF58476D1CE4E5B9ull; z = (z ^ (z >> 27)) * 0x94D049BB133111EBull; return z ^ (z >> 31); }
 
 static unsigned long hist[32][32];
+static unsigned long errhist[32];
+static unsigned long reset_state_hist[32][32];
 static long n_tri_viol;
 static char tri_msg[256];
 
@@ -41,6 +43,7 @@ static void take(struct json_tokener *tok, struct json_object *o, size_t len, st
 	r->end = json_tokener_get_parse_end(tok);
 	r->nonnull = o != NULL;
 	r->dh = 0;
+	if (r->err >= 0 && r->err < 32) errhist[r->err]++;
 	if (o || r->err == json_tokener_success) { ob_reset(&dtmp); dump_node(&dtmp, o, 0); r->dh = fnv(dtmp.b, dtmp.n); }
 	/* C04 trichotomy, checked on every single call this driver makes */
 	if ((o && r->err != json_tokener_success) || r->err < 0 || r->err > (int)json_tokener_error_memory || r->end > len) {
@@ -216,10 +219,24 @@ static void cmd_stream(int nt, char **t)
 static void cmd_reset(int nt, char **t)
 {
 	int flags, depth; size_t na, ny; unsigned char *a, *y; struct json_tokener *tok, *fresh; struct res r1, r2, rf; long live_new, live_after_ok, live_reset, live_cycle1 = 0, live_cycleN = 0; int i;
-	char *buf; struct json_object *o; int a_err; int st_a, ss_a, depth_a;
+	char *buf; struct json_object *o; int a_err; int st_a, ss_a, depth_a; size_t chunk_len[64]; int nchunks = 0;
 	if (nt < 5) { ob_puts(&out, "! R args"); return; }
 	flags = (int)strtol(t[1], NULL, 0); depth = (int)strtol(t[2], NULL, 0);
-	a = unhex(t[3], &na); y = unhex(t[4], &ny);
+	{ /* A may be given as comma-separated hex chunks */
+	  char *p = t[3], *q; size_t tot = 0; nchunks = 0;
+	  if (*p == 'x') p++;
+	  a = (unsigned char *)malloc(strlen(p) / 2 + 2);
+	  while (nchunks < 64) {
+		size_t L; unsigned char *part;
+		q = strchr(p, ','); if (q) *q = 0;
+		part = unhex(p, &L); memcpy(a + tot, part, L); free(part);
+		chunk_len[nchunks++] = L; tot += L;
+		if (!q) break;
+		p = q + 1;
+	  }
+	  na = tot;
+	}
+	y = unhex(t[4], &ny);
 	/* reference: blocks a new parser holds, and what it holds after one completed parse */
 	{ long b0 = vf_live_blocks; struct json_tokener *t0 = depth > 0 ? json_tokener_new_ex(depth) : json_tokener_new();
 	  live_new = vf_live_blocks - b0;
@@ -228,9 +245,18 @@ static void cmd_reset(int nt, char **t)
 	{ long b0 = vf_live_blocks;
 	tok = depth > 0 ? json_tokener_new_ex(depth) : json_tokener_new();
 	json_tokener_set_flags(tok, flags);
-	buf = (char *)malloc(na ? na : 1); memcpy(buf, a, na);
-	o = json_tokener_parse_ex(tok, buf, (int)na); take(tok, o, na, &r1); free(buf);
+	{ /* feed A in the chunks given (comma-separated in the command) until a call does not report continue */
+	  size_t offa = 0; int ci;
+	  r1.err = json_tokener_continue;
+	  for (ci = 0; ci < nchunks && r1.err == json_tokener_continue; ci++) {
+		size_t len = chunk_len[ci];
+		buf = (char *)malloc(len ? len : 1); memcpy(buf, a + offa, len);
+		o = json_tokener_parse_ex(tok, buf, (int)len); take(tok, o, len, &r1); free(buf);
+		offa += len;
+	  }
+	}
 	a_err = r1.err; st_a = (int)tok->stack[tok->depth].state; ss_a = (int)tok->stack[tok->depth].saved_state; depth_a = tok->depth;
+	if (st_a >= 0 && st_a < 32 && ss_a >= 0 && ss_a < 32) reset_state_hist[st_a][ss_a]++;
 	json_tokener_reset(tok);
 	live_reset = vf_live_blocks - b0;
 	/* repeated interrupt-then-reset cycles must not accumulate anything */
@@ -279,6 +305,23 @@ static void cmd_guard(int nt, char **t)
 	  o = json_tokener_parse_ex(tok, p, (int)sl + 1); take(tok, o, sl + 1, &r3); json_tokener_free(tok);
 	}
 	munmap(m, span + (size_t)pg);
+	{ /* (3) len < -1 must be refused with the size error; (4) random chunking with these flags/depth: outcome trichotomy only */
+	  struct res r4; size_t off = 0; int sizeerr;
+	  tok = depth > 0 ? json_tokener_new_ex(depth) : json_tokener_new(); json_tokener_set_flags(tok, flags);
+	  o = json_tokener_parse_ex(tok, (char *)s, -2); sizeerr = (int)json_tokener_get_error(tok); if (sizeerr >= 0 && sizeerr < 32) errhist[sizeerr]++; json_object_put(o);
+	  if (o || sizeerr != (int)json_tokener_error_size) { if (!n_tri_viol) snprintf(tri_msg, sizeof tri_msg, "len=-2 gave err=%d nonnull=%d", sizeerr, o != NULL); n_tri_viol++; }
+	  json_tokener_reset(tok);
+	  sm_state = n * 31 + (size_t)flags;
+	  while (off < n) {
+		size_t len = 1 + (size_t)(sm() % 17); char *b2;
+		if (len > n - off) len = n - off;
+		b2 = (char *)malloc(len); memcpy(b2, s + off, len);
+		o = json_tokener_parse_ex(tok, b2, (int)len); take(tok, o, len, &r4); free(b2);
+		if (r4.err != json_tokener_continue) json_tokener_reset(tok);
+		off += len;
+	  }
+	  json_tokener_free(tok);
+	}
 	ob_printf(&out, "= n=%zu r=%d,%zu m1=%d,%zu explicit_same=%d tri=%ld live=%ld", n, r1.err, r1.end, r2.err, r2.end, same(&r2, &r3), n_tri_viol, vf_live_blocks - base_live);
 	if (n_tri_viol) ob_printf(&out, " | trichotomy %s", tri_msg);
 	free(s);
@@ -303,6 +346,10 @@ int main(int argc, char **argv)
 		else if (!strcmp(tokv[0], "Z")) {
 			int a, b; ob_puts(&out, "= hist");
 			for (a = 0; a < 32; a++) for (b = 0; b < 32; b++) if (hist[a][b]) ob_printf(&out, " %d/%d:%lu", a, b, hist[a][b]);
+			ob_puts(&out, " errs");
+			for (a = 0; a < 32; a++) if (errhist[a]) ob_printf(&out, " e%d:%lu", a, errhist[a]);
+			ob_puts(&out, " resetat");
+			for (a = 0; a < 32; a++) for (b = 0; b < 32; b++) if (reset_state_hist[a][b]) ob_printf(&out, " r%d/%d:%lu", a, b, reset_state_hist[a][b]);
 		}
 		else ob_printf(&out, "! unknown %s", tokv[0]);
 		ob_putc(&out, '\n');
